@@ -10,30 +10,51 @@ From Coq Require Import List Bool Arith.
 Import ListNotations.
 Require Import Kinds.
 
+(* TokenMatcher.match_K: answer, the (mutated) token, the new matcher state;
+   MRaise = a ParserException escaped from the matcher *)
+Inductive mres (Tok MS Err : Type) :=
+  | MR (ans : bool) (t : Tok) (m : MS)
+  | MRaise (e : Err) (t : Tok) (m : MS).
+Arguments MR {Tok MS Err}.
+Arguments MRaise {Tok MS Err}.
+
+(* AstBuilder.start_rule / end_rule / build *)
+Inductive bres (BS Err : Type) := BOk (b : BS) | BRaise (e : Err) (b : BS) | BCrash.
+Arguments BOk {BS Err}.
+Arguments BRaise {BS Err}.
+Arguments BCrash {BS Err}.
+
+(* everything the interpreter is generic in *)
+Record params (Tok MS BS Err : Type) := mk_params {
+  is_eof : Tok -> bool;
+  mk_eof : nat -> Tok;                         (* the scanner's EOF token for a line number *)
+  matchf : kind -> MS -> Tok -> mres Tok MS Err;
+  b_start : rule -> BS -> bres BS Err;
+  b_end : rule -> BS -> bres BS Err;
+  b_build : Tok -> BS -> bres BS Err;
+  err_same_msg : Err -> Err -> bool;           (* str(error) equality, add_error's dedupe *)
+  mk_unexpected : Tok -> list kind -> Err;     (* UnexpectedEOF/TokenException *)
+  table : list st;
+  lookaheads : list la;
+  error_cap : nat;
+  start_state : nat
+}.
+Arguments is_eof {Tok MS BS Err}.
+Arguments mk_eof {Tok MS BS Err}.
+Arguments matchf {Tok MS BS Err}.
+Arguments b_start {Tok MS BS Err}.
+Arguments b_end {Tok MS BS Err}.
+Arguments b_build {Tok MS BS Err}.
+Arguments err_same_msg {Tok MS BS Err}.
+Arguments mk_unexpected {Tok MS BS Err}.
+Arguments table {Tok MS BS Err}.
+Arguments lookaheads {Tok MS BS Err}.
+Arguments error_cap {Tok MS BS Err}.
+Arguments start_state {Tok MS BS Err}.
+
 Section Interp.
-  Variables (Tok MS BS Err : Type).
-  Variable is_eof : Tok -> bool.
-  Variable mk_eof : nat -> Tok.                       (* the scanner's EOF token for a line number *)
-
-  (* TokenMatcher.match_K: answer, the (mutated) token, the new matcher state;
-     MRaise = a ParserException escaped from the matcher *)
-  Inductive mres :=
-    | MR (ans : bool) (t : Tok) (m : MS)
-    | MRaise (e : Err) (t : Tok) (m : MS).
-  Variable matchf : kind -> MS -> Tok -> mres.
-
-  (* AstBuilder.start_rule / end_rule / build *)
-  Inductive bres := BOk (b : BS) | BRaise (e : Err) (b : BS) | BCrash.
-  Variable b_start b_end : rule -> BS -> bres.
-  Variable b_build : Tok -> BS -> bres.
-
-  Variable err_same_msg : Err -> Err -> bool.         (* str(error) equality, add_error's dedupe *)
-  Variable mk_unexpected : Tok -> list kind -> Err.   (* UnexpectedEOF/TokenException *)
-
-  Variable table : list st.
-  Variable lookaheads : list la.
-  Variable error_cap : nat.
-  Variable start_state : nat.
+  Context {Tok MS BS Err : Type}.
+  Variable P : params Tok MS BS Err.
 
   (* what the interpreter itself did, in order (ghost log; newest first) *)
   Inductive ev :=
@@ -83,22 +104,22 @@ Section Interp.
     | [] =>
       match rest c with
       | t :: r => (t, mkctx [] r (S (lineno c)) (errs c) (ms c) (bs c) (calls c) (log c))
-      | [] => (mk_eof (S (lineno c)), mkctx [] [] (S (lineno c)) (errs c) (ms c) (bs c) (calls c) (log c))
+      | [] => ((mk_eof P) (S (lineno c)), mkctx [] [] (S (lineno c)) (errs c) (ms c) (bs c) (calls c) (log c))
       end
     end.
 
   (* Parser.add_error *)
   Definition add_error (e : Err) (c : ctx) : res unit :=
-    if existsb (err_same_msg e) (errs c) then Ok tt c
+    if existsb ((err_same_msg P) e) (errs c) then Ok tt c
     else let c' := set_errs (errs c ++ [e]) c in
-         if error_cap <? length (errs c') then RaiseC (errs c') c' else Ok tt c'.
+         if (error_cap P) <? length (errs c') then RaiseC (errs c') c' else Ok tt c'.
 
   (* the generated wrapper Parser.match_K + handle_external_error *)
   Definition match_k (stop : bool) (k : kind) (t : Tok) (c : ctx) : res (bool * Tok) :=
-    if negb (kind_beq k KEOF) && is_eof t then Ok (false, t) c
+    if negb (kind_beq k KEOF) && (is_eof P) t then Ok (false, t) c
     else
       let c := bump c in
-      match matchf k (ms c) t with
+      match (matchf P) k (ms c) t with
       | MR b t' m' => Ok (b, t') (set_ms m' c)
       | MRaise e t' m' =>
         let c' := set_ms m' c in
@@ -129,7 +150,7 @@ Section Interp.
           else Ok (false, acc ++ [snd r']) c3))
     end.
 
-  Definition find_la (h : nat) := find (fun x => Nat.eqb (la_id x) h) lookaheads.
+  Definition find_la (h : nat) := find (fun x => Nat.eqb (la_id x) h) (lookaheads P).
 
   Definition lookahead (stop : bool) (h : nat) (c : ctx) : res bool :=
     match find_la h with
@@ -140,7 +161,7 @@ Section Interp.
     end.
 
   (* handle_ast_error around one builder call *)
-  Definition b_call (stop : bool) (f : BS -> bres) (c : ctx) : res unit :=
+  Definition b_call (stop : bool) (f : BS -> bres BS Err) (c : ctx) : res unit :=
     match f (bs c) with
     | BOk b' => Ok tt (set_bs b' c)
     | BRaise e b' => if stop then Raise1 e (set_bs b' c) else add_error e (set_bs b' c)
@@ -152,9 +173,9 @@ Section Interp.
     | [] => Ok tt c
     | p :: ps' =>
       bind (match p with
-            | PS r => b_call stop (b_start r) (emit (EvS r) c)
-            | PE r => b_call stop (b_end r) (emit (EvE r) c)
-            | PB => b_call stop (b_build t) (emit (EvB t k) c)
+            | PS r => b_call stop ((b_start P) r) (emit (EvS r) c)
+            | PE r => b_call stop ((b_end P) r) (emit (EvE r) c)
+            | PB => b_call stop ((b_build P) t) (emit (EvB t k) c)
             end) (fun _ c' => exec stop t k ps' c')
     end.
 
@@ -179,7 +200,7 @@ Section Interp.
         else run_tests stop xs t1 c1)
     end.
 
-  Definition find_state (s : nat) := find (fun x => Nat.eqb (s_id x) s) table.
+  Definition find_state (s : nat) := find (fun x => Nat.eqb (s_id x) s) (table P).
 
   (* Parser.match_token *)
   Definition match_token (stop : bool) (s : nat) (t : Tok) (c : ctx) : res nat :=
@@ -190,7 +211,7 @@ Section Interp.
         match fst r with
         | Some s' => Ok s' c1
         | None =>
-          let e := mk_unexpected (snd r) (s_expected x) in
+          let e := (mk_unexpected P) (snd r) (s_expected x) in
           let c2 := emit (EvX (snd r) s) c1 in
           if stop then Raise1 e c2
           else bind (add_error e c2) (fun _ c3 => Ok (s_err x) c3)
@@ -204,7 +225,7 @@ Section Interp.
     | S f =>
       let (t, c1) := read c in
       bind (match_token stop s t c1) (fun s' c2 =>
-        if is_eof t then Ok s' c2 else loop f stop s' c2)
+        if (is_eof P) t then Ok s' c2 else loop f stop s' c2)
     end.
 
   Definition init_ctx (toks : list Tok) (m : MS) (b : BS) : ctx :=
@@ -213,9 +234,9 @@ Section Interp.
   (* Parser.parse after the resets; m and b are the reset matcher / builder *)
   Definition parse (stop : bool) (toks : list Tok) (m : MS) (b : BS) : res unit :=
     let c0 := init_ctx toks m b in
-    bind (b_call stop (b_start RGherkinDocument) (emit (EvS RGherkinDocument) c0)) (fun _ c1 =>
-    bind (loop (S (S (length toks))) stop start_state c1) (fun _ c2 =>
-    bind (b_call stop (b_end RGherkinDocument) (emit (EvE RGherkinDocument) c2)) (fun _ c3 =>
+    bind (b_call stop ((b_start P) RGherkinDocument) (emit (EvS RGherkinDocument) c0)) (fun _ c1 =>
+    bind (loop (S (S (length toks))) stop (start_state P) c1) (fun _ c2 =>
+    bind (b_call stop ((b_end P) RGherkinDocument) (emit (EvE RGherkinDocument) c2)) (fun _ c3 =>
       match errs c3 with
       | [] => Ok tt c3
       | es => RaiseC es c3
@@ -224,16 +245,14 @@ Section Interp.
   Definition events (c : ctx) : list ev := rev (log c).
 End Interp.
 
+Arguments ctx : clear implicits.
+Arguments res : clear implicits.
+Arguments ev : clear implicits.
 Arguments Ok {Tok MS BS Err A}.
 Arguments Raise1 {Tok MS BS Err A}.
 Arguments RaiseC {Tok MS BS Err A}.
 Arguments Crash {Tok MS BS Err A}.
 Arguments OutOfFuel {Tok MS BS Err A}.
-Arguments MR {Tok MS Err}.
-Arguments MRaise {Tok MS Err}.
-Arguments BOk {BS Err}.
-Arguments BRaise {BS Err}.
-Arguments BCrash {BS Err}.
 Arguments EvS {Tok}.
 Arguments EvE {Tok}.
 Arguments EvB {Tok}.
